@@ -975,11 +975,13 @@ THOROUGH_DEPTH = 4
 def exhaustive_configs(tier):
     out = []
     if tier == 'quick':
-        plan = [(init, QUICK_DEPTH, False, 8) for init in ('bare', 'line', 'steal', 'single')] + [('default', 2, False, 2)]
+        plan = [('bare', QUICK_DEPTH, False, 8), ('line', QUICK_DEPTH, False, 24)]
+        plan += [(init, 2, False, 2) for init in ('steal', 'single', 'default')]
         plan += [(init, 2, True, 4) for init in ('bare', 'line')]
     else:
-        plan = [(init, THOROUGH_DEPTH, False, 64) for init in ('bare', 'line', 'steal', 'single')] + [('default', 3, False, 16)]
-        plan += [(init, 3, True, 32) for init in INITS]
+        plan = [('bare', THOROUGH_DEPTH, False, 32), ('line', THOROUGH_DEPTH, False, 96)]
+        plan += [(init, 3, False, 32) for init in ('steal', 'single', 'default')]
+        plan += [(init, 2, True, 4) for init in INITS] + [(init, 3, True, 48) for init in ('bare', 'line')]
     for init, depth, full, chunks in plan:
         for k in range(chunks):
             out.append({'name': f'init={init};depth={depth};alphabet={"full" if full else "core"};chunk={k}/{chunks}',
